@@ -491,6 +491,8 @@ class EvalFunc:
                     raise TypeError(
                         f"{exc_mesg}: decorator @{dec_name} keyword '{arg}' should be type {ok_types}"
                     )
+                # None is every keyword's default: given explicitly it means the same as omitted
+                dec_kwargs = {arg: value for arg, value in dec_kwargs.items() if value is not None}
             if dec_name == "service":
                 desc = self.doc_string
                 if desc is None or desc == "":
